@@ -20,6 +20,8 @@ PROBE = '__probe__'
 # ---------------------------------------------------------------- values
 def to_py(v):
     if v[0] == 'A':
+        if v[1] == 3:
+            return None                 # atoms of type 3 are Python's None: supplied explicitly, an instance of no declared type
         return int(v[2]) if v[1] == 0 else float(v[2]) + 0.5
     d = {k: to_py(x) for k, x in v[1]}
     if v[0] == 'F':
@@ -29,11 +31,11 @@ def to_py(v):
 
 
 def atom_ty(x):
-    return 1 if isinstance(x, float) else 0
+    return 3 if x is None else 1 if isinstance(x, float) else 0
 
 
 def atom_id(x):
-    return int(x - 0.5) if isinstance(x, float) else int(x)
+    return 0 if x is None else int(x - 0.5) if isinstance(x, float) else int(x)
 
 
 def is_mapping(x):
@@ -175,7 +177,7 @@ def ref_complete(sub, supplied):
 
 
 def falsy(v):
-    return (v[0] == 'A' and v[1] == 0 and v[2] == 0) or (v[0] != 'A' and not v[1])
+    return (v[0] == 'A' and ((v[1] == 0 and v[2] == 0) or v[1] == 3)) or (v[0] != 'A' and not v[1])
 
 
 def ref_mentions(v, n):
@@ -303,7 +305,7 @@ def name_forest(f):
     return [(NAMES[i], t) for i, t in enumerate(f)]
 
 
-LEAF_INPUTS = [None, ('A', 0, 1), ('A', 0, 2), ('A', 1, 1)]
+LEAF_INPUTS = [None, ('A', 0, 1), ('A', 0, 2), ('A', 1, 1), ('A', 3, 0)]      # the last one: an explicit None
 EXTRAS = [None, ('z', ('A', 0, 2)), ('z', ('A', 1, 2)), ('z', ('D', [('y', ('A', 0, 2))]))]
 
 
@@ -329,6 +331,8 @@ def optn(rng, p, hi):
 
 def gen_value(rng, depth, leaf_only=False, ty=None):
     if leaf_only or depth == 0 or rng.random() < 0.7:
+        if rng.random() < 0.06:
+            return ('A', 3, 0)          # an explicit None
         return ('A', rng.randint(0, 1) if ty is None else ty, rng.randint(0, 3))
     n = rng.randint(0, 2)
     return ('D', [(k, gen_value(rng, depth - 1, ty=ty)) for k in rng.sample(['x', 'y', 'z'], n)])
@@ -449,7 +453,7 @@ def mutate_items(rng, sub, items, depth=0):
         if kind == 'dict-for-leaf':
             nv = ('D', [('w', ('A', 0, 1))])
         elif v[0] == 'A':
-            nv = ('A', 1 - v[1], v[2]) if kind == 'wrongtype' else ('A', v[1], rng.randint(0, 3))
+            nv = ('A', (1 - v[1]) if v[1] in (0, 1) else 0, v[2]) if kind == 'wrongtype' else ('A', v[1], rng.randint(0, 3) if v[1] != 3 else 0)
         else:
             nv = ('A', 0, rng.randint(0, 3))
         return items[:i] + [(k, nv)] + items[i + 1:]
